@@ -36,7 +36,8 @@ structure Step where
 
 /-! ## generic helpers -/
 
-def newestSnap (d : Durable) : Option Snap := d.snaps.head?
+/-- the newest snapshot that can be read back -/
+def newestSnap (d : Durable) : Option Snap := usableSnap d
 
 def maxIndex (l : List Entry) : Nat := l.foldl (fun m e => max m e.index) 0
 
@@ -209,7 +210,7 @@ def fsmLocal : List Step → Nat → Nat → Option (Nat × String)
   | [], _, _ => none
   | s :: rest, hi, k =>
     if s.post.dead then none else
-    let fresh := s.post.panic || (match s.ev with | .restart => true | _ => false)
+    let fresh := s.post.panic || (match s.ev with | .restart => true | .damagedRestart => true | _ => false)
     let hi0 := if fresh then 0 else hi
     -- walk the calls
     let walk := s.post.fsm.foldl (fun (acc : Nat × Bool) c =>
@@ -258,7 +259,7 @@ def coverage : List Step → Nat → Option Nat
 def snapMonotone : List Step → Nat → Option Nat
   | [], _ => none
   | s :: rest, k =>
-    let fresh := s.post.panic || s.post.dead || (match s.ev with | .restart => true | _ => false)
+    let fresh := s.post.panic || s.post.dead || (match s.ev with | .restart => true | .damagedRestart => true | _ => false)
     if !fresh && s.post.vol.snapIdx < s.pre.vol.snapIdx then some k else snapMonotone rest (k + 1)
 
 /-! ## C10 — restart reproduces what is durable -/
@@ -274,7 +275,7 @@ def durableConfig (d : Durable) : CF.Config × Nat :=
 def restartFaithful : List Step → Nat → Option (Nat × String)
   | [], _ => none
   | s :: rest, k =>
-    let fresh := (s.post.panic || (match s.ev with | .restart => true | _ => false)) && !s.post.dead
+    let fresh := (s.post.panic || (match s.ev with | .restart => true | .damagedRestart => true | _ => false)) && !s.post.dead
     let r : Option String :=
       if !fresh then none else
       let d := s.post.dur
@@ -316,7 +317,7 @@ def fsmTruth (H : List Entry) : List Step → List Nat → Nat → Nat → Optio
   | _, [], _, _ => none
   | s :: rest, hl :: hls, pos, k =>
     if s.post.dead then none else
-    let fresh := s.post.panic || (match s.ev with | .restart => true | _ => false)
+    let fresh := s.post.panic || (match s.ev with | .restart => true | .damagedRestart => true | _ => false)
     let pos0 := if fresh then 0 else pos
     let r := s.post.fsm.foldl (fun (acc : Nat × Option String) c =>
       match acc.2 with
@@ -364,7 +365,7 @@ def commitTruth (H : List Entry) : List Step → List Nat → Nat → Nat → Op
   | _, [], _, _ => none
   | s :: rest, hl :: hls, known, k =>
     if s.post.dead then some (k, "server-cannot-restart-from-its-durable-state") else
-    let fresh := s.post.panic || (match s.ev with | .restart => true | _ => false)
+    let fresh := s.post.panic || (match s.ev with | .restart => true | .damagedRestart => true | _ => false)
     let c := s.post.vol.commit
     let si := ((newestSnap s.post.dur).map (·.idx)).getD 0
     let known' := max known c
